@@ -272,4 +272,20 @@ def dec2ddm(dec):""", note='sign flag dropped in dec2dms: wrong for -1 < x < 0')
                                      grid_dist / lsf, ellipsoid)""",
          new="""        lat2, lon2, az2to1 = vincdir(lat1, lon1, az1to2,
                                      grid_dist / lsf)""", note='vincdir_utm: geodesic on the default ellipsoid'),
+    # ---- C03: geodetic <-> Cartesian ---------------------------------------------------------------------------------
+    dict(id='c03-iterstop', props=['C03'], file='geodepy/convert.py', old="    while abs(itercheck) > 1e-10:",
+         new="    while abs(itercheck) > 1e-6:", note='xyz2llh iteration stop 1e-10 -> 1e-6'),
+    dict(id='c03-ecc-swap', props=['C03'], file='geodepy/convert.py', old="    latinit = atan((z*(1+ellipsoid.ecc2sq))/p)",
+         new="    latinit = atan((z*(1+ellipsoid.ecc1sq))/p)", note='ecc1sq <-> ecc2sq in the initial latitude (harmless: the iteration absorbs it)'),
+    dict(id='c03-ecc-swap-iter', props=['C03'], file='geodepy/convert.py',
+         old="        lat = atan((z + nu * ellipsoid.ecc1sq * sin(lat))/p)", new="        lat = atan((z + nu * ellipsoid.ecc2sq * sin(lat))/p)",
+         note='ecc1sq <-> ecc2sq inside the iteration'),
+    dict(id='c03-equator-grs80', props=['C03'], file='geodepy/convert.py', old="        nu = ellipsoid.semimaj\n    else:",
+         new="        nu = grs80.semimaj\n    else:", note='baseline defect restored: GRS80 radius on the equator'),
+    dict(id='c03-height-cancel', props=['C03'], file='geodepy/convert.py',
+         old="    ellht = p * cos(lat) + z * sin(lat) - ellipsoid.semimaj**2 / nu", new="    ellht = p/(cos(lat)) - nu",
+         note='baseline defect restored: ill-conditioned height'),
+    dict(id='c03-semimin', props=['C03'], file='geodepy/convert.py',
+         old="    z = ((ellipsoid.semimin**2 / ellipsoid.semimaj**2) * nu + ellht) * sin(lat)",
+         new="    z = ((grs80.semimin**2 / grs80.semimaj**2) * nu + ellht) * sin(lat)", note='z from the default ellipsoid axes ratio'),
 ]
